@@ -36,6 +36,8 @@ func runC15(c *core.Ctx) {
 	c.Rule("C15.dolist", "A1: DoListFunc skips non-matching entries before counting; the number compared with offset is a counter incremented once per matching entry; an entry is appended iff it matches and lies beyond the offset; the loop stops when size entries were collected")
 	c.Rule("C15.exists", "A1: Bolt.exists answers true only from an exact-key lookup (bucket.Get(key) != nil or cursor key == key); GetTx maps ¬exists to ErrNoObjectExists before reading")
 
+	c.Rule("C15.seek", "A1: bolt's Cursor.Seek lands on the next key when the sought one is absent: every point use of its result (a Delete/DeleteBucket/Put that follows) happens only on paths where the returned key was compared equal to the sought key; a scan that starts with Seek keeps a HasPrefix test of the returned key in its loop condition")
+
 	pkg := c.P.Pkg("services/storage")
 	if pkg == nil {
 		c.Undecided("C15.txerr", "anchor:services/storage", token.NoPos, "package not loaded")
@@ -51,6 +53,98 @@ func runC15(c *core.Ctx) {
 	c15List(c, pkg)
 	c15DoList(c, pkg)
 	c15Exists(c, pkg)
+	c15Seek(c, pkg)
+}
+
+func c15Seek(c *core.Ctx, pkg *packages.Package) { c15SeekAs(c, pkg, "C15.seek") }
+
+func c15SeekAs(c *core.Ctx, pkg *packages.Package, rule string) {
+	info := pkg.TypesInfo
+	nPoint, nScan := 0, 0
+	for _, fn := range core.AllFuncs(pkg) {
+		if fn.Decl.Body == nil {
+			continue
+		}
+		parents := parentMap(fn.Decl.Body)
+		var point []*ast.CallExpr
+		ast.Inspect(fn.Decl.Body, func(n ast.Node) bool {
+			call, ok := n.(*ast.CallExpr)
+			if !ok {
+				return true
+			}
+			f := core.Callee(info, call)
+			if f == nil || f.Name() != "Seek" || core.RecvTypeName(f) != "Cursor" {
+				return true
+			}
+			// scan form: the Seek is the init of a for statement
+			var loop *ast.ForStmt
+			for p := parents[call]; p != nil; p = parents[p] {
+				if fs, ok := p.(*ast.ForStmt); ok && fs.Init != nil && fs.Init.Pos() <= call.Pos() && call.End() <= fs.Init.End() {
+					loop = fs
+				}
+			}
+			if loop != nil {
+				nScan++
+				cond := ""
+				if loop.Cond != nil {
+					cond = types.ExprString(loop.Cond)
+				}
+				sought := types.ExprString(call.Args[0])
+				c.Check(strings.Contains(cond, "HasPrefix(") && strings.Contains(cond, ", "+sought+")"), rule, fn.Name()+"#scan", call.Pos(), "a scan started with Seek(%s) must stop at the first key without that prefix (loop condition: %s)", sought, cond)
+				return true
+			}
+			point = append(point, call)
+			return true
+		})
+		if len(point) == 0 {
+			continue
+		}
+		nPoint += len(point)
+		eng := &an.Engine{Prog: c.P,
+			TrackCall: func(call *ast.CallExpr, callee *types.Func) string {
+				if callee == nil {
+					return ""
+				}
+				switch callee.Name() {
+				case "Seek":
+					return "Seek"
+				case "Delete", "DeleteBucket", "Put":
+					if rn := core.RecvTypeName(callee); rn == "Bucket" || rn == "Cursor" {
+						return "mutate"
+					}
+				}
+				return ""
+			},
+			Classify: func(a an.Atom) (string, bool) {
+				if a.Op == token.EQL && (strings.Contains(a.L, ".Seek(") != strings.Contains(a.R, ".Seek(")) && (strings.Contains(a.L, ").0") || strings.Contains(a.R, ").0")) && a.R != "nil" && a.L != "nil" {
+					return "exact", false
+				}
+				if strings.Contains(a.Key, "bytes.Equal(") && strings.Contains(a.Key, ".Seek(") {
+					return "exact", false
+				}
+				return "", false
+			}}
+		paths, err := eng.Run(fn)
+		if err != nil {
+			c.Undecided(rule, fn.Name(), fn.Decl.Pos(), "%v", err)
+			continue
+		}
+		good := len(paths) > 0
+		for _, p := range paths {
+			if !p.Has("Seek") || !p.Has("mutate") || p.Index("Seek") > p.Index("mutate") {
+				continue
+			}
+			if v, dec := p.Assign()["exact"]; !dec || !v {
+				good = false
+				c.Fail(rule, fn.Name()+"#exact", p.Find("mutate").Pos, "a key is deleted or written after Cursor.Seek without the returned key having been compared equal to the sought one (%s): deleting an absent key removes its lexicographic successor — another object's record, or the next topic's whole bucket", p.Cond())
+			}
+		}
+		if good {
+			c.Ok(rule, fn.Name()+"#exact")
+		}
+	}
+	c.Floor(rule, "point uses of Cursor.Seek", nPoint, 1)
+	c.Floor(rule, "scans started with Cursor.Seek", nScan, 1)
 }
 
 func c15TxWrap(c *core.Ctx, pkg *packages.Package) {
